@@ -60,7 +60,7 @@ def _bcast_partner(rng, xs, P, D, rel):
 def cases(tier, seed):
     out = []
     Ds = [1, 2, 3, 4, 6] if tier == 'quick' else [1, 2, 3, 4, 5, 6, 8]
-    reps = 1 if tier == 'quick' else 6
+    reps = 1 if tier == 'quick' else 40
     for op in OPS:
         for form in ('binary', 'reflected', 'inplace'):
             for kind in ['utpm'] + SCALAR_KINDS + ARRAY_KINDS:
